@@ -20,9 +20,12 @@
     `start_flush_io_buffer`, `start_flush_io_buffer_raw`, `enable_hold_state` and the unsolicited
     machine's two — are, in the model, the record updates regenerated from the assignment
     statements of `src/cat.c` on every run.
+  * `C20_framing_generated` (translator item T8): the six state functions that read a byte and
+    dispatch on it are the text regenerated from their `switch (self->current_char)` statements.
 -/
 import CatVerif.Proofs.Quiesce
 import CatVerif.Proofs.Setters
+import CatVerif.Proofs.Readers
 namespace Cat
 open St
 
@@ -124,5 +127,15 @@ theorem C20_setters_generated (D : Desc) (s : St) (a : After) :
   ⟨resetState_generated D s, prepareParseCommand_generated D s, prepareSearchCommand_generated D s,
    startFlush_cmd_generated D s a, startFlushRaw_generated D s a, startFlush_uns_generated D s a,
    unsolicitedResetState_generated D s, enableHoldState_generated D s⟩
+
+/-- line framing — which byte leads where in the six reading-and-dispatching states, where CR is
+recorded, which bytes IDLE ignores — is, in the model, the text regenerated from the `switch
+(self->current_char)` statements of the source (translator item T8) -/
+theorem C20_framing_generated (D : Desc) :
+    errorState = Gen.error_state ∧ processIdleState = Gen.process_idle_state D ∧ parsePrefix = Gen.parse_prefix ∧
+    parseCommand = Gen.parse_command ∧ waitReadAcknowledge = Gen.wait_read_acknowledge D ∧
+    waitTestAcknowledge = Gen.wait_test_acknowledge :=
+  ⟨errorState_generated, processIdleState_generated D, parsePrefix_generated, parseCommand_generated,
+   waitReadAcknowledge_generated D, waitTestAcknowledge_generated⟩
 
 end Cat
